@@ -177,13 +177,3 @@ Lemma lgrant_le x o l : lrate x l <> 0 ->
   lgrant l x o <= match o with OTick dt => (now x + dt - last_tick x) * lrate x l / 1000000 | _ => 0 end.
 Proof. intros Hr. destruct o; cbn [lgrant]; try lia. apply tick_grant. exact Hr. Qed.
 
-(* non-vacuity: a limited root with a 5000 B/s slave, two ticks, then demand on the slave list *)
-Definition ex_pre : list op := [OSetRate 0 10000; OSlave; OSetRate 1 5000].
-Definition ex_ops : list op := [OInsert 1 0; OTick 1000000; OTick 1000000; OConsume 1 0 3000; OSetRate 0 20000; OTick 1000000].
-Example ex_per_list :
-  sinv (final init ex_pre) /\ valid_opsb (final init ex_pre) ex_ops = true /\ stable_opsb (final init ex_pre) ex_ops = true /\
-  (exists t, get_tl (final init ex_pre) 1 = Some t) /\ ltotals 1 (final init ex_pre) ex_ops = (3000, 15000).
-Proof.
-  split; [apply (hierarchy_run ex_pre init sinv_init); vm_compute; reflexivity|].
-  split; [vm_compute; reflexivity|]. split; [vm_compute; reflexivity|]. split; [eexists; vm_compute; reflexivity|vm_compute; reflexivity].
-Qed.
